@@ -8,11 +8,19 @@ from . import quant_wire as qw
 STR_COR_STAGES = ("n1", "n3", "est")
 
 
+COR_STAGES = ("empty", "n1", "n2", "n5", "est", "merge", "merge-empty-level0", "rand")
+
+
 def pfx_cor_op(s, sid):
-    # string items: corruption runs are expensive on the stream path (see quant_wire.structural_offsets), so only at some stages
-    if s.ty == "str" and not (s.stage in STR_COR_STAGES or (s.stage == "rand" and s.rng.random() < 0.25)):
-        return ["pfx %d" % sid]
-    return ["pfx %d" % sid, "cor %d" % sid]
+    # every prefix length at every stage; corruption runs (hundreds of forked crash cases per image) at the stages that differ in layout.
+    # string items: corruption is expensive on the stream path (see quant_wire.structural_offsets), so only at some stages
+    if s.ty == "str":
+        cor = s.stage in STR_COR_STAGES or (s.stage == "rand" and s.rng.random() < 0.25)
+    elif s.fam == "req" and s.hra.get(sid) == 1 and s.stage != "rand":
+        cor = s.stage in ("n2", "est")          # the rank-accuracy mode is one flag bit: the layout classes are covered with hra = 0
+    else:
+        cor = s.stage in COR_STAGES
+    return ["pfx %d" % sid, "cor %d" % sid] if cor else ["pfx %d" % sid]
 
 
 def parse_codes(line):
@@ -35,7 +43,7 @@ def parse_codes(line):
 
 class C11Part(qw.WirePart):
     def generate(self, rng, tier):
-        return qw.add_cor_offsets(qw.generate_for(self.fam, pfx_cor_op, rng, tier, nrand=(10 if tier == "quick" else 120)))
+        return qw.add_cor_offsets(qw.split_checks(qw.generate_for(self.fam, pfx_cor_op, rng, tier, nrand=(6 if tier == "quick" else 100))))
 
     def pfx_lines(self, impl_out):
         return [g for g in (parse_codes(l) for l in impl_out if l.startswith("PFX ")) if g]
@@ -84,10 +92,10 @@ class C11Part(qw.WirePart):
                         if c == "t":
                             continue
                         if c in "ade":
-                            key = "%s/%s/prefix-accepted@%s" % (self.fam, path, self.field(g, n))
+                            key = "%s/%s/prefix-accepted@%s" % (self.fam, path, qw.field_region(self.field(g, n)))
                             what = "prefix of length %d of a %d-byte image accepted (%s)" % (n, g["size"], {"a": "same content", "d": "other content", "e": "getter threw"}[c])
                         else:
-                            key = "%s/%s/prefix/%s@%s" % (self.fam, path, qw.SAFETY.get(c, c), self.field(g, n))
+                            key = "%s/%s/prefix/%s@%s" % (self.fam, path, qw.SAFETY.get(c, c), qw.field_region(self.field(g, n)))
                             what = "prefix length %d of %d: %s %s" % (n, g["size"], qw.SAFETY.get(c, c), g["details"].get(pi * g["size"] + n, ""))
                         if key not in seen:
                             seen.add(key)
